@@ -72,6 +72,11 @@ class T:
 
     class Pair: pass  # tuple[int,int]
 
+    class ObjList:
+        """symbolic-length list of opaque library objects of class `cls`; each element's whole state is an
+        int pair kept in its `_pair` field (the stubs of `cls` interpret it)"""
+        def __init__(self, cls): self.cls = cls
+
     class OneOf:
         """object of one of several classes (chosen by forking)"""
         def __init__(self, classes, allow_none=False): self.classes, self.allow_none = classes, allow_none
@@ -79,6 +84,12 @@ class T:
     class Shared:
         """the object is a process-wide singleton (dataclass field(default=obj))"""
         def __init__(self, real): self.real = real
+
+
+def obj_wrapper(cls):
+    def wrap(a, b):
+        return SObj(cls, {"_pair": (a, b)}, cls.__name__)
+    return wrap
 
 
 class QueueCell:
@@ -379,6 +390,8 @@ def clone_graph(roots):
             n = ListCell(None)
             memo[id(v)] = n
             n.items = [cp(x) for x in v.items] if isinstance(v.items, list) else v.items
+            if getattr(v, "wrap", None) is not None:
+                n.wrap = v.wrap
             return n
         if isinstance(v, DictCell):
             if id(v) in memo:
@@ -476,6 +489,12 @@ class Interp:
             l = SPairList.fresh(name)
             ctx.assume(l.n >= 0)
             return ListCell(l)
+        if isinstance(t, T.ObjList):
+            l = SPairList.fresh(name)
+            ctx.assume(l.n >= 0)
+            cell = ListCell(l)
+            cell.wrap = obj_wrapper(t.cls)
+            return cell
         if t is T.Queue:
             n = z3.Int(name + ".len")
             ctx.assume(n >= 0)
@@ -1209,6 +1228,8 @@ class Interp:
             if name == "extend":
                 (other,) = args
                 other = self.force(other)
+                if isinstance(obj.items, Opaque):
+                    return None  # content not tracked
                 if isinstance(obj.items, list) and isinstance(other, ListCell) and isinstance(other.items, list):
                     obj.items.extend(other.items)
                     return None
@@ -1237,6 +1258,8 @@ class Interp:
         raise Unsupported(f"method {name} on {obj!r} at line {getattr(node, 'lineno', '?')}")
 
     def as_pair(self, x):
+        if isinstance(x, SObj) and "_pair" in x.f:
+            x = x.f["_pair"]
         if isinstance(x, tuple) and len(x) == 2:
             return (to_z3_int(x[0]), to_z3_int(x[1]))
         raise Unsupported(f"symbolic-length lists hold int pairs only, got {x!r}")
@@ -1422,6 +1445,9 @@ class Interp:
                          "dict_values": lambda i: d.val[d.keys[i]]}[it[0]]
         if isinstance(it, ListCell) and isinstance(it.items, SPairList):
             l = it.items
+            wrap = getattr(it, "wrap", None)
+            if wrap is not None:
+                return l.n, lambda i: wrap(l.a[i], l.b[i])
             return l.n, lambda i: (l.a[i], l.b[i])
         raise Unsupported(f"symbolic iteration over {it!r}")
 
@@ -1502,10 +1528,10 @@ class Interp:
         # 2. havoc what the loop may modify
         assigned = _assigned_names(s)
         for nm in assigned:
+            if nm in spec.local_types:
+                continue  # declared type: havocked below
             if nm in fr.locals:
                 fr.locals[nm] = self.havoc_like(fr.locals[nm], f"lp:{nm}")
-            elif nm in spec.local_types:
-                pass
         for nm, t in spec.local_types.items():
             fr.locals[nm] = self.fresh_value(t, f"lp:{nm}!{next(ctx._n)}")
         for loc in spec.modifies:
@@ -1616,6 +1642,10 @@ def same_value(a, b):
     if isinstance(a, SBytes) and isinstance(b, SBytes):
         return (a.b is b.b or (a.b is not None and b.b is not None and a.b.eq(b.b))) and (
             a.seq is b.seq or (a.seq is not None and b.seq is not None and a.seq.eq(b.seq)))
+    if isinstance(a, ListCell) and isinstance(b, ListCell):
+        if isinstance(a.items, list) and isinstance(b.items, list):
+            return len(a.items) == len(b.items) and all(same_value(x, y) for x, y in zip(a.items, b.items))
+        return a.items is b.items
     if isinstance(a, SPath) and isinstance(b, SPath):
         return a.p.eq(b.p)
     if isinstance(a, SStr) and isinstance(b, SStr):
